@@ -90,6 +90,7 @@ func genC01(c *Ctx) {
 				}
 			}
 			c.sample(t.render(0, c.rng))
+			c.E(t.render(0, c.rng)) // auxiliary: the retained expand() against its model (not an observable of the API)
 			// (b) seeded labelings from the full term pool; allowed lists from related spellings
 			for k := 0; k < labelings; k++ {
 				var lab []string
